@@ -55,10 +55,14 @@ def run(ctx):
         ctx.stages.sort(key=lambda st: st.name)
     return standard(ctx, "C06", ["model/C06_run.vo"], stages,
                     rule="c06page: paging histories, population 0-70 (thorough: -200), 6 timestamp patterns (distinct, all equal, runs longer than / equal to the page, few values, random), "
-                         "page sizes 1..N+1 and 'maximum', event schedules none/sparse/busy/same-timestamp, rows inserted with old timestamps in 1/10, one failing request or callback in 1/4 "
+                         "page sizes 1..N+1 and 'maximum', event schedules none/sparse/busy/same-timestamp, rows inserted with old timestamps in 1/10, one failing request or callback in 1/4, 8 failure kinds (500, cut JSON, transport error, 503, status 200 with an empty body, the real answer cut at byte 0/1/middle/last, "
+                         "body reader failing after that many bytes, white space only), every request index in turn answered 200 with an empty / partial body "
                          "(non-trivial = population >= 2 and >= 3 requests); c06sweep: Balancer.Run against a stub cluster with an unshadowed read-only mount holding replicas (every third configuration: always), shadowed read-only views, "
                          "read-only services, blank device ids, Replication 0-2, storage classes; once per request index with that request failing with HTTP 500, once more with a "
-                         "failure kind drawn per request (transport error, 404, 503 non-JSON, 200 with an unexpected body), index requests also cut short (non-trivial: all); "
+                         "failure kind drawn per request (transport error, 404, 503 non-JSON, 200 with an unexpected body), every GET once more with status 200 and an empty body, index requests also cut short (non-trivial: all); "
+                         "c06unix: the real handler over a real Directory volume: 1-4 healthy block directories (0-3 block files and non-block files each), 0-2 unreadable root entries "
+                         "(regular file / link to a file with a hex name, dangling link, link loop), a link to a healthy directory, names to ignore, prefix in 1/3, shuffled creation order "
+                         "(non-trivial = >= 2 root entries); "
                          "c06handler: 1-4 volumes, each failing with probability 1/3 after a prefix of its lines (non-trivial = >= 2 volumes); "
                          "c06idxa/c06idxk: every truncation point of generated well-formed indexes (one case per index), raw malformed bodies, failing readers, lines of 65535/65536 bytes "
                          "(non-trivial = non-empty body); distinct by hash of the case term",
